@@ -62,6 +62,29 @@ class TlcResult:
         self.complete = False
 
 
+# TLC keeps only the low byte of every character of a string held in a
+# state variable (U+0085 comes back as U+FF85, U+2028 as "("), so strings
+# are handed to TLC in pure ASCII: every non-ASCII \\uXXXX escape of the JSON
+# text becomes the literal text {uXXXX}, and is mapped back when the
+# exported cases are parsed.  The specifications treat strings as opaque
+# atoms, so any injective renaming is sound.
+_TO_TLC_RE = re.compile(r'(\\\\)|\\u([0-9a-f]{4})')
+_FROM_TLC_RE = re.compile(r'\{u([0-9a-f]{4})\}')
+
+
+def to_tlc(json_text):
+    """json_text: ASCII-only JSON (json.dumps default)."""
+    def sub(m):
+        if m.group(1) or int(m.group(2), 16) < 0x80:
+            return m.group(0)
+        return '{u%s}' % m.group(2)
+    return _TO_TLC_RE.sub(sub, json_text)
+
+
+def from_tlc(json_text):
+    return _FROM_TLC_RE.sub(r'\\u\1', json_text)
+
+
 _CASE_RE = re.compile(r'^<<"(CASE[A-Z0-9_]*)", (".*")>>$')
 
 
@@ -77,7 +100,7 @@ def parse_cases(stdout, into=None):
         if not m:
             raise MachineryError('unparsable TLC export line: %r' % line[:200])
         try:
-            payload = json.loads(json.loads(m.group(2)))
+            payload = json.loads(from_tlc(json.loads(m.group(2))))
         except ValueError as e:
             raise MachineryError('bad JSON in TLC export: %s: %r' % (
                 e, line[:200]))
